@@ -24,7 +24,9 @@ import (
 	"time"
 
 	"tunnox-core/internal/packet"
+	"tunnox-core/internal/protocol/session"
 	"tunnox-core/internal/security"
+	"tunnox-core/internal/stream"
 	"tunnox-core/verifharness/fw"
 	"tunnox-core/verifharness/srvkit"
 )
@@ -494,6 +496,22 @@ func (r *runner) step(o opT) (fw.Event, string) {
 			r.overrun = true // the sweep reached another connection first: not the modelled schedule
 			return ev, ""
 		}
+	case "ReReg":
+		// a second ControlConnection object is registered under the connection's id (ClientRegistry.Register
+		// "already exists, replacing"): with the stream of the registered object, or with a stream of its own over the same socket
+		if s := needOpen(); s != "" {
+			return nil, s
+		}
+		old := w.S.SM.GetControlConnection(c.ID)
+		if old == nil {
+			return nil, "re-registration of a connection that is not registered (model and server disagree)"
+		}
+		ev["shape"] = o.How + ":" + r.prev(c, -1)
+		st := old.Stream
+		if o.How != "same" {
+			st = stream.NewStreamProcessor(c.T, c.T, w.S.Ctx)
+		}
+		w.S.SM.RegisterControlConnection(session.NewControlConnection(c.ID, st, old.RemoteAddr, "tcp"))
 	case "LoginLost", "LoginHold":
 		if s := needOpen(); s != "" {
 			return nil, s
@@ -1078,13 +1096,18 @@ func selfTest(env *fw.Env, acc []*fw.Trace) []*fw.Trace {
 				f(c.Events[i]["proj"].(map[string]any))
 				out = append(out, c)
 			}
-			switch kinds % 4 {
+			switch kinds % 5 {
 			case 0: // lookup returns a connection that belongs to somebody else
 				mut(func(p map[string]any) { p["lookup"].(map[string]any)[hit].(map[string]any)["cid"] = "Z" })
 			case 1: // lookup returns an unauthenticated connection
 				mut(func(p map[string]any) { p["lookup"].(map[string]any)[hit].(map[string]any)["authd"] = false })
 			case 2: // a registered connection's transport is closed
 				mut(func(p map[string]any) { p["conns"].(map[string]any)[regc].(map[string]any)["tcl"] = true })
+			case 4: // the index points at something else than the registered connection of that id (by id it is not authenticated)
+				mut(func(p map[string]any) {
+					c := p["lookup"].(map[string]any)[hit].(map[string]any)["c"].(string)
+					p["conns"].(map[string]any)[c].(map[string]any)["authd"] = false
+				})
 			case 3: // a count is off by one
 				mut(func(p map[string]any) { p["total"] = p["total"].(float64) + 1 })
 			}
@@ -1126,6 +1149,8 @@ func main() {
 					{Name: "sweep in two parts (locked section, then callback) with kicks, and sweep under a cloud outage, one client, complete", Module: "SessionReg", Cfg: "SessionReg_sweep.cfg",
 						Consts: map[string]string{"FIXES": fixes, "FAULTS": "{}", "CLIENT": "Client1", "VIEW": "VIEW viewX", "LEVEL": "99", "EMIT": `"no"`,
 							"OPS": `{"FirstLogin", "Login", "Close", "Kick", "SweepBegin", "TickX", "Cloud"}`}},
+					{Name: "re-registration of an existing connection id, one client, complete", Module: "SessionReg", Cfg: "SessionReg_rereg.cfg",
+						Consts: map[string]string{"FIXES": fixes, "FAULTS": "{}", "CLIENT": "Client1", "VIEW": "VIEW viewX", "LEVEL": "99", "EMIT": `"no"`}},
 					{Name: "authenticated-but-unindexed connections (tunnel type, lost / held response) and every removal path, one client, complete", Module: "SessionReg", Cfg: "SessionReg_dup.cfg",
 						Consts: map[string]string{"FIXES": fixes, "FAULTS": "{}", "CLIENT": "Client1", "VIEW": "VIEW viewX", "LEVEL": "99", "EMIT": `"no"`, "OPS": `{"FirstLogin", "Login", "LoginLost", "LoginHold", "Close", "CloseCmd", "Kick", "SweepBegin"}`}},
 				})
@@ -1144,6 +1169,8 @@ func main() {
 						"OPS": `{"FirstLogin", "Login", "Close", "Kick", "SweepBegin", "TickX", "Cloud"}`}},
 				{Name: "authenticated-but-unindexed connections (tunnel type, lost / held response) and every removal path, two clients, complete", Module: "SessionReg", Cfg: "SessionReg_dup.cfg",
 					Consts: map[string]string{"FIXES": fixes, "FAULTS": "{}", "CLIENT": "Client2", "VIEW": "VIEW viewX", "LEVEL": "99", "EMIT": `"no"`, "OPS": `{"FirstLogin", "Login", "LoginLost", "LoginHold", "Close", "CloseCmd", "Kick", "SweepBegin"}`}},
+				{Name: "re-registration of an existing connection id, two clients, complete", Module: "SessionReg", Cfg: "SessionReg_rereg.cfg",
+					Consts: map[string]string{"FIXES": fixes, "FAULTS": "{}", "CLIENT": "Client2", "VIEW": "VIEW viewX", "LEVEL": "99", "EMIT": `"no"`}},
 				{Name: "tree before patches C07-1/C07-2, depth 8 (invariants masked by the named deviations)", Module: "Session", Cfg: "Session_c07.cfg",
 					Consts: map[string]string{"FIXES": "{}", "LEVEL": "8", "EMIT": `"no"`, "INV": "C07InvMasked C07OneMasked"}},
 				{Name: "interleaved critical sections before C07-2, depth 14 (login race masked)", Module: "Session", Cfg: "Session_split.cfg",
@@ -1175,6 +1202,9 @@ func main() {
 			// connections authenticated for a client but not indexed, next to the client's indexed one: all canonical histories
 			jobs = append(jobs, fw.TLCJob{Name: "gen:dup", Module: "SessionReg", Cfg: "SessionReg_dup.cfg", Workers: 8,
 				Consts: map[string]string{"FIXES": fixes, "FAULTS": "{}", "CLIENT": "Client1", "VIEW": "", "LEVEL": "4", "EMIT": `"canon"`, "OPS": `{"FirstLogin", "Login", "LoginLost", "LoginHold", "Close", "CloseCmd", "Kick", "SweepBegin"}`}})
+			// re-registration of an existing connection id, all canonical histories
+			jobs = append(jobs, fw.TLCJob{Name: "gen:rereg", Module: "SessionReg", Cfg: "SessionReg_rereg.cfg", Workers: 8,
+				Consts: map[string]string{"FIXES": fixes, "FAULTS": "{}", "CLIENT": "Client1", "VIEW": "", "LEVEL": "4", "EMIT": `"canon"`}})
 			if env.Tier == "thorough" {
 				jobs = append(jobs, fw.TLCJob{Name: "gen:dup5", Module: "SessionReg", Cfg: "SessionReg_dup.cfg", Workers: 8,
 					Consts: map[string]string{"FIXES": fixes, "FAULTS": "{}", "CLIENT": "Client1", "VIEW": "", "LEVEL": "5", "EMIT": `"canon"`,
@@ -1189,9 +1219,9 @@ func main() {
 		},
 		MaxBehSrc: func(env *fw.Env, src string) int {
 			if env.Tier == "thorough" {
-				return map[string]int{"gen:transitions": 30000, "gen:cap": 12000, "gen:kick": 15000, "gen:simulate": 8000, "gen:sweep": 6000, "gen:sweepkick": 6000, "gen:dup": 6000, "gen:dup5": 8000}[src]
+				return map[string]int{"gen:transitions": 30000, "gen:cap": 12000, "gen:kick": 15000, "gen:simulate": 8000, "gen:sweep": 6000, "gen:sweepkick": 6000, "gen:dup": 6000, "gen:dup5": 8000, "gen:rereg": 6000}[src]
 			}
-			return map[string]int{"gen:transitions": 2600, "gen:cap": 900, "gen:kick": 2000, "gen:simulate": 600, "gen:sweep": 1200, "gen:dup": 6000}[src]
+			return map[string]int{"gen:transitions": 2600, "gen:cap": 900, "gen:kick": 2000, "gen:simulate": 600, "gen:sweep": 1200, "gen:dup": 6000, "gen:rereg": 6000}[src]
 		},
 		ExtraBeh:    parBehaviours,
 		Drive:       drive,
@@ -1221,6 +1251,7 @@ func main() {
 			"UnregisterForTunnel is driven through ClientRegistry.Unregister directly (what handleTunnelOpen calls), not through a full tunnel open",
 			"the sweep window is realised on the server's own sweep goroutine: it is parked in the offline notification of its callback (DisconnectClientIfMatch of the session layer's cloud-control adapter, one-shot hold) for one stale authenticated connection; other connections are kept alive by heartbeats",
 			"LoginLost = a correct control-type login whose success response write is made to fail once by the fake transport (send side broken, transport open); LoginHold/LoginResume = the same login with its goroutine parked right after the response write, before handleHandshake's registry section; operations in that window concern other connections only",
+			"ReReg registers a second ControlConnection object under an existing connection id through SessionManager.RegisterControlConnection (same stream object, or a new StreamProcessor over the same fake transport)",
 			"Close with how=command is the client's Disconnect command (handleDisconnectCommand -> CloseConnection), observed before the peer closes its socket; a command the server ignores demands nothing",
 			"a panic of tunnox-core beside the sweep goroutine in a timed behaviour (stream closed under a writer after a timing overrun; StreamProcessor teardown, known finding of C16) discards the behaviour as inconclusive",
 		},
